@@ -254,8 +254,8 @@ StringDictionaryRPHTFC::StringDictionaryRPHTFC(IteratorDictString *it,
           codeSubstr = codeSubstr >> (ptrSubstr - TABLEBITSO);
           ptrSubstr = TABLEBITSO;
         } else {
-          if ((bucket == buckets) && (elements % bucketsize == 0)) {
-            // The last element is directly padded
+          if (ptrB >= ptrE) {
+            // No internal string follows: the header is directly padded
             codeSubstr = (codeSubstr << (TABLEBITSO - ptrSubstr));
             ptrSubstr = TABLEBITSO;
           } else {
